@@ -115,6 +115,18 @@ def f2(run: Run, prog: Program):
     st_ = cn.methods.get("set_threshold")
     if st_ is None:
         raise AnalysisError("ClimateNetwork.set_threshold vanished")
+    # private helpers of set_threshold stand for their statements
+    import copy as _copy
+    from .idioms import inline_simple_helpers
+
+    def _res(hn):
+        h = prog.lookup(cn, hn)
+        return h.node if h is not None and hn.startswith("_") and \
+            not hn.startswith("__") and hn not in (
+                "_calculate_threshold_adjacency", "_calculate_non_local_adjacency") \
+            else None
+    st_ = _copy.copy(st_)
+    st_.node = inline_simple_helpers(st_.node, _res)
     calls = [n for n in ast.walk(st_.node) if isinstance(n, ast.Call)
              and ast.unparse(n.func).endswith(".__init__")]
     for c in calls:
@@ -135,8 +147,40 @@ def f2(run: Run, prog: Program):
             if isinstance(fn_, ast.IfExp):
                 return _funnel_callee(fn_.body) and _funnel_callee(fn_.orelse)
             return ast.unparse(fn_) in FUNNEL
-        okf = bool(defs) and all(isinstance(d.value, ast.Call) and
-                                 _funnel_callee(d.value.func) for d in defs)
+        def _produced_by_funnel(e, fnode, depth=0):
+            """Is the value of `e` (evaluated in fnode) always a result of one of
+            the two thresholding variants - directly, through locals, or through
+            the returns of a private helper?"""
+            if depth > 3:
+                return False
+            if isinstance(e, ast.Name):
+                ds = [n.value for n in ast.walk(fnode) if isinstance(n, ast.Assign)
+                      and len(n.targets) == 1 and isinstance(n.targets[0], ast.Name)
+                      and n.targets[0].id == e.id]
+                return bool(ds) and all(_produced_by_funnel(d, fnode, depth + 1)
+                                        for d in ds)
+            if isinstance(e, ast.IfExp):
+                return _produced_by_funnel(e.body, fnode, depth + 1) and \
+                    _produced_by_funnel(e.orelse, fnode, depth + 1)
+            if not isinstance(e, ast.Call):
+                return False
+            fn_ = inline_locals(fnode, e.func)
+            if isinstance(fn_, ast.IfExp):
+                return all(ast.unparse(x) in FUNNEL for x in (fn_.body, fn_.orelse))
+            if ast.unparse(fn_) in FUNNEL:
+                return True
+            if isinstance(fn_, ast.Attribute) and isinstance(fn_.value, ast.Name) and \
+                    fn_.value.id in ("self", cn.name) and fn_.attr.startswith("_"):
+                h = prog.lookup(cn, fn_.attr)
+                if h is not None:
+                    rets = [r.value for r in ast.walk(h.node)
+                            if isinstance(r, ast.Return) and r.value is not None]
+                    return bool(rets) and all(
+                        _produced_by_funnel(r, h.node, depth + 1) for r in rets)
+            return False
+        okf = (bool(defs) and all(isinstance(d.value, ast.Call) and
+                                  _funnel_callee(d.value.func) for d in defs)) or \
+            _produced_by_funnel(a, st_.node)
         run.oblige("F2", "funnel", okf, sample={
             "where": f"{st_.module.relpath}:{c.lineno}",
             "defs": [ast.unparse(d.value)[:60] for d in defs]})
